@@ -480,17 +480,50 @@ def r10d(P, R):
         root_calls = [c for c in pd.walk() if c.get("k") == "Call" and (call_name(c) or "").endswith("get_resolver_type")]
         # plugins compose: each plugin transforms the result of the previous one
         tcalls = [(i, c) for i, (c, _) in enumerate(pd.nodes()) if c.get("k") == "MethodCall" and c["method"] == "transform_document_for_resolvers"]
+        pvc = Prov(pd)
+
+        def copies_of(e):
+            """locals the expression is (transitively, through bindings) computed from"""
+            seen, st = set(), [e]
+            while st:
+                x = st.pop()
+                if isinstance(x, list):
+                    st.extend(x)
+                elif isinstance(x, dict):
+                    if x.get("k") == "Path" and "local" in x:
+                        if x["local"] not in seen:
+                            seen.add(x["local"])
+                            st.extend(src for src, _ in pvc.src.get(x["local"], []) if src is not None)
+                    elif x.get("k") != "Closure":
+                        st.extend(v for kk, v in x.items() if kk != "inl" and isinstance(v, (dict, list)))
+            return seen
+        BAD = ("transform_document_for_resolvers is not given the accumulated document: only the last transforming "
+               "plugin takes effect and the fields excluded by earlier plugins require resolvers again")
         for i, c in tcalls:
-            cls = [x for x in enclosing_contexts(pd, i) if x[0] == "closure"]
-            folds = [n for n in pd.walk() if n.get("k") == "MethodCall" and n["method"] == "fold" and any(a is cls[0][1] for a in n["args"])] if cls else []
-            if not folds:
-                R.undecided("R10-d", "plugins-compose", "plugin transformations are not applied by a fold over the plugin list", loc=pd.loc())
+            ctxs = enclosing_contexts(pd, i)
+            cls = [x for x in ctxs if x[0] == "closure"]
+            folds = [n for n in pd.walk() if n.get("k") == "MethodCall" and n["method"] in ("fold", "try_fold") and any(a is cls[0][1] for a in n["args"])] if cls else []
+            given = copies_of(c["args"][0]) if c["args"] else set()
+            if folds:
+                # fold: the accumulator is the closure's first parameter
+                acc = {b["local"] for b in subnodes(cls[0][1]["params"][0]) if b.get("k") == "Binding"}
+                R.check("R10-d", "plugins-compose", bool(acc & given), "each plugin receives the document produced by the previous plugins",
+                        "in the fold over plugins, " + BAD, loc=pd.loc())
                 continue
-            acc = [b["local"] for b in subnodes(cls[0][1]["params"][0]) if b.get("k") == "Binding"]
-            used = {y.get("local") for y in subnodes(c["args"][0]) if y.get("k") == "Path"}
-            R.check("R10-d", "plugins-compose", bool(set(acc) & used), "each plugin receives the document produced by the previous plugins",
-                    "in the fold over plugins, transform_document_for_resolvers is not given the accumulated document: only the last transforming "
-                    "plugin takes effect and the fields excluded by earlier plugins require resolvers again", loc=pd.loc())
+            loops = [x[1] for x in ctxs if x[0] == "loop"]
+            if loops and not cls:
+                # loop: the accumulator is the local the loop body assigns a value derived from this call's result
+                acc = set()
+                for a in subnodes(loops[0]):
+                    if a.get("k") == "Assign" and a["l"].get("k") == "Path" and "local" in a["l"] \
+                            and any(x[0] == "call" and x[1].endswith("transform_document_for_resolvers") for x in pvc.atoms(a["r"])):
+                        acc.add(a["l"]["local"])
+                if acc:
+                    R.check("R10-d", "plugins-compose", bool(acc & given), "each plugin receives the document produced by the previous plugins",
+                            "in the loop over plugins, the result of one plugin is stored in the accumulator but " + BAD, loc=pd.loc())
+                    continue
+            R.undecided("R10-d", "plugins-compose", "plugin transformations are applied neither by a fold nor by a loop that assigns an accumulator; "
+                        "whether they compose is not decided", loc=pd.loc())
         R.floor("R10-d", "plugin transformation sites", len(tcalls), 1)
         if root_calls and tcalls:
             pvp = Prov(pd)
